@@ -836,6 +836,19 @@ func (loader *Loader) resolveRequestBodyRef(doc *T, component *RequestBodyRef, d
 				return err
 			}
 		}
+		for _, name := range componentNames(contentType.Encoding) {
+			encoding := contentType.Encoding[name]
+			if encoding == nil {
+				continue
+			}
+			for _, name := range componentNames(encoding.Headers) {
+				if header := encoding.Headers[name]; header != nil {
+					if err := loader.resolveHeaderRef(doc, header, documentPath); err != nil {
+						return err
+					}
+				}
+			}
+		}
 	}
 	return nil
 }
@@ -914,6 +927,19 @@ func (loader *Loader) resolveResponseRef(doc *T, component *ResponseRef, documen
 				return err
 			}
 			contentType.Schema = schema
+		}
+		for _, name := range componentNames(contentType.Encoding) {
+			encoding := contentType.Encoding[name]
+			if encoding == nil {
+				continue
+			}
+			for _, name := range componentNames(encoding.Headers) {
+				if header := encoding.Headers[name]; header != nil {
+					if err := loader.resolveHeaderRef(doc, header, documentPath); err != nil {
+						return err
+					}
+				}
+			}
 		}
 	}
 	for _, name := range componentNames(value.Links) {
